@@ -194,6 +194,17 @@ def gen_binfmt():
     if not (m and m2):
         raise ExtractError('default font entry')
     out.append(lean_list('defaultFontName', [ord(c) for c in m.group(1)]))
+    # the embedding decision of the XBin writer (C17 `xb_font_rt`): `is_default` must compare name, size, length AND the
+    # glyph bytes with the built-in font (Model/BinFormats.lean: Font.isDefault); the writer must ask it for font 0
+    norm = lambda t: re.sub(r'\s+', ' ', re.sub(r'//[^\n]*', '', t)).strip()
+    mi = re.search(r'pub fn is_default\(&self\) -> bool \{(.*?)\n    \}', f, re.S)
+    want = ('if self.name != DEFAULT_FONT_NAME { return false; } let default = BitFont::default(); '
+            'self.size == default.size && self.length == default.length && '
+            'self.convert_to_u8_data() == default.convert_to_u8_data()')
+    if not mi or norm(mi.group(1)) != want:
+        raise ExtractError('fonts.rs: BitFont::is_default no longer compares name, size, length and glyph bytes with the built-in font')
+    if 'if !font.is_default() || !buf.has_fonts() || fonts.len() > 1 {\n            flags |= FLAG_FONT;' not in src('src/formats/xbinary.rs'):
+        raise ExtractError('xbinary.rs: embedding decision of font 0 changed')
     data = open(os.path.join(REPO, 'data', 'fonts', m2.group(1)), 'rb').read()
     if len(data) >= 4 and struct.unpack('<I', data[:4])[0] == 0x864AB572:
         version, headersize, _flags, length, charsize, height, width = struct.unpack('<7I', data[4:32])
